@@ -43,7 +43,10 @@ pub struct Case {
     pub image: Vec<u8>,
     pub prefix: Vec<ROp>,
     pub ww: WWord,
-    pub dst_fill: usize,
+    /// operations on the destination before the copy (may leave stale bits in its buffer)
+    pub dst_pre: Vec<WOp>,
+    /// optional earlier copy of this many bits through reader.copy_to
+    pub n0: Option<u64>,
     pub n: u64,
     pub path: Path,
     /// optional second copy of this many bits through the other specialisation
@@ -54,12 +57,13 @@ pub struct Case {
 impl Case {
     fn to_kv(&self) -> String {
         format!(
-            "rcfg={} image={} prefix={} ww={} dfill={} n={} path={} n2={} scont={} dcont={}",
+            "rcfg={} image={} prefix={} ww={} dpre={} n0={} n={} path={} n2={} scont={} dcont={}",
             self.rcfg.name(),
             hex(&self.image),
             rops_to_string(&self.prefix),
             self.ww.name(),
-            self.dst_fill,
+            wops_to_string(&self.dst_pre),
+            self.n0.map(|x| x.to_string()).unwrap_or("-".into()),
             self.n,
             self.path.name(),
             self.n2.map(|x| x.to_string()).unwrap_or("-".into()),
@@ -74,7 +78,8 @@ impl Case {
             image: unhex(kv.get("image")),
             prefix: parse_rops(kv.get("prefix")),
             ww: *WWord::ALL.iter().find(|w| w.name() == kv.get("ww")).unwrap(),
-            dst_fill: kv.usize("dfill"),
+            dst_pre: parse_wops(kv.get("dpre")),
+            n0: kv.opt("n0").and_then(|s| s.parse().ok()),
             n: kv.u64("n"),
             path: Path::parse(kv.get("path")),
             n2: kv.opt("n2").and_then(|s| s.parse().ok()),
@@ -129,19 +134,40 @@ pub fn check_case(c: &Case, rep: &mut Report) {
         }
     }
     let p0 = pos_after(&c.prefix);
-    let sfill = rh.log.as_ref().map(|l| (l.borrow().reads as usize * rw).saturating_sub(p0)).unwrap_or(0);
-    // destination prefill
+    let sfill0 = rh.log.as_ref().map(|l| (l.borrow().reads as usize * rw).saturating_sub(p0)).unwrap_or(0);
+    // destination prefix (clean and dirty writes, codes, mid-stream flush): judged by C01, here
+    // it only brings the writer's buffer into a realistic state
     let mut dbits: Bits = vec![];
-    let mut left = c.dst_fill;
-    let mut k = 0u64;
-    while left > 0 {
-        let m = left.min(64);
-        let v = 0xA5C3_96F0_1E2D_4B78u64.rotate_left(k as u32 * 7) & if m == 64 { u64::MAX } else { (1 << m) - 1 };
-        let _ = guard(|| wh.w.write_bits(v, m));
-        push_bits(&mut dbits, e, v, m);
-        left -= m;
-        k += 1;
+    for op in &c.dst_pre {
+        model_apply(&mut dbits, e, c.ww.bits(), op);
+        let r = match op {
+            WOp::Bits(v, n) => guard(|| wh.w.write_bits(*v, *n)),
+            WOp::Unary(x) => guard(|| wh.w.write_unary(*x)),
+            WOp::Code(cop, v) => guard(|| wh.w.write_code(*cop, *v)),
+            _ => guard(|| wh.w.flush()),
+        };
+        if !r.is_ok() {
+            rep.count("destination_prefix_failed", 1);
+            return;
+        }
     }
+    let mut p0 = p0;
+    if let Some(n0) = c.n0 {
+        if p0 + n0 as usize > bits.len() {
+            return;
+        }
+        rep.eval(1);
+        let r = do_copy(Path::ReaderCopyTo, e, rh.r.as_mut(), wh.w.as_mut(), n0);
+        if !r.is_ok() {
+            rep.violation(&format!("{}|{}|{}|first-copy|{}", e.name(), c.rcfg.kind.name(), c.ww.name(), r.class()), || format!("first copy of {} bits returned {}", n0, r.show()), || c.to_kv());
+            return;
+        }
+        dbits.extend_from_slice(&bits[p0..p0 + n0 as usize]);
+        p0 += n0 as usize;
+    }
+    let dst_fill = dbits.len() % c.ww.bits();
+    let dst_pre_len = dbits.len();
+    let sfill = if c.n0.is_some() { rh.log.as_ref().map(|l| (l.borrow().reads as usize * rw).saturating_sub(p0)).unwrap_or(0) } else { sfill0 };
     if p0 + c.n as usize + c.n2.unwrap_or(0) as usize > bits.len() {
         rep.count("case_beyond_data", 1);
         return;
@@ -151,14 +177,15 @@ pub fn check_case(c: &Case, rep: &mut Report) {
     rep.eval(1);
     let r = do_copy(c.path, e, rh.r.as_mut(), wh.w.as_mut(), c.n);
     if !r.is_ok() {
-        rep.violation(&format!("{}|copy|{}", sig, r.class()), || format!("copy of {} bits (source fill {}, destination fill {}) returned {}", c.n, sfill, c.dst_fill, r.show()), kvf);
+        rep.violation(&format!("{}|copy|{}", sig, r.class()), || format!("copy of {} bits (source fill {}, destination fill {}) returned {}", c.n, sfill, dst_fill, r.show()), kvf);
         return;
     }
     dbits.extend_from_slice(&bits[p0..p0 + c.n as usize]);
     let mut pos = p0 + c.n as usize;
     if c.n > 0 {
-        let dclass = if c.dst_fill == 0 { 0 } else if c.dst_fill + 1 == c.ww.bits() { 2 } else { 1 };
-        rep.case(&(e, c.rcfg.kind, c.ww, sfill, dclass, n_class(c.n, sfill, rw), c.path));
+        let dclass = if dst_fill == 0 { 0 } else if dst_fill + 1 == c.ww.bits() { 2 } else { 1 };
+        let dirty = c.dst_pre.iter().any(|o| !matches!(o, WOp::Bits(v, n) if *n == 64 || *v >> *n == 0));
+        rep.case(&(e, c.rcfg.kind, c.ww, sfill, dclass, dirty, n_class(c.n, sfill, rw), c.path));
     }
     // source position
     rep.eval(1);
@@ -210,14 +237,14 @@ pub fn check_case(c: &Case, rep: &mut Report) {
         let gb = bits_of_image(&got, e);
         let first = (0..dbits.len().min(gb.len())).find(|i| gb[*i] != dbits[*i]);
         let region = match first {
-            Some(f) if f < c.dst_fill => "prefill",
-            Some(f) if f < c.dst_fill + c.n as usize => "copied",
+            Some(f) if f < dst_pre_len => "prefill",
+            Some(f) if f < dst_pre_len + c.n as usize => "copied",
             Some(_) => "after-copy",
             None => "length",
         };
         rep.violation(
             &format!("{}|destination-{}", sig, region),
-            || format!("copy of {} bits (source at bit {}, fill {}; destination fill {}): destination {} (flush {}) but bit-by-bit transfer gives {}; first differing bit {:?}", c.n, p0, sfill, c.dst_fill, hex(&got), fl.show(), hex(&img), first),
+            || format!("copy of {} bits (source at bit {}, fill {}; destination fill {}): destination {} (flush {}) but bit-by-bit transfer gives {}; first differing bit {:?}", c.n, p0, sfill, dst_fill, hex(&got), fl.show(), hex(&img), first),
             kvf,
         );
         return;
@@ -260,6 +287,38 @@ pub fn dst_conts(rng: &mut Rng) -> Vec<Vec<WOp>> {
         vec![WOp::Code(CodeOp::GammaP(false), 1234567), WOp::Bits(rng.next() & 0x1fff, 13)],
         vec![WOp::Flush, WOp::Bits(rng.next() & 0x7f, 7)],
     ]
+}
+
+/// Destination operations before the copy that end at fill level `fill`, from a
+/// rotating set of templates: clean writes, writes with garbage above the field,
+/// a table-free gamma (passes a dirty argument to write_bits), a mid-stream flush,
+/// a long unary.
+pub fn dst_prefix(fill: usize, wbits: usize, template: usize, rng: &mut Rng, e: En) -> Vec<WOp> {
+    let mut ops: Vec<WOp> = match template % 6 {
+        0 => vec![],
+        1 => vec![WOp::Bits(rng.next() | 0xFFFF_0000_0000_0000, 5)],
+        2 => vec![WOp::Code(CodeOp::GammaP(false), (1u64 << (20 + rng.below(30))) + (rng.next() & 0xFFFFF))],
+        3 => vec![WOp::Bits(rng.next(), 13), WOp::Flush],
+        4 => vec![WOp::Unary(70 + rng.below(70))],
+        _ => vec![WOp::Code(CodeOp::DeltaP(false, false), rng.next() >> 3), WOp::Code(CodeOp::Std(Code::Omega), rng.next() >> 9)],
+    };
+    let mut bits: Bits = vec![];
+    for op in &ops {
+        model_apply(&mut bits, e, wbits, op);
+    }
+    let cur = bits.len() % wbits;
+    let mut left = (fill + wbits - cur) % wbits;
+    let dirty = template % 2 == 1 || template % 6 == 0 && template % 4 == 2;
+    while left > 0 {
+        let m = left.min(64).min(1 + rng.below(64) as usize);
+        let mut v = rng.next();
+        if !dirty && m < 64 {
+            v &= (1u64 << m) - 1;
+        }
+        ops.push(WOp::Bits(v, m));
+        left -= m;
+    }
+    ops
 }
 
 pub fn n_values(tier: Tier, rng: &mut Rng) -> Vec<u64> {
@@ -355,7 +414,8 @@ pub fn run(ctx: &Ctx) -> Report {
                             image: img.clone(),
                             prefix: prefix.clone(),
                             ww,
-                            dst_fill: df,
+                            dst_pre: dst_prefix(df, ww.bits(), ci, &mut rng, e),
+                            n0: if ci % 7 == 3 { Some(1 + rng.below(90)) } else { None },
                             n,
                             path,
                             n2,
@@ -377,7 +437,12 @@ pub fn run(ctx: &Ctx) -> Report {
                 image: images[0].clone(),
                 prefix,
                 ww,
-                dst_fill: rng.below(ww.bits() as u64) as usize,
+                dst_pre: {
+                    let d = rng.below(ww.bits() as u64) as usize;
+                    let t = rng.below(100) as usize;
+                    dst_prefix(d, ww.bits(), t, &mut rng, e)
+                },
+                n0: None,
                 n: *rng.pick(&ns),
                 path: *rng.pick(&Path::ALL),
                 n2: None,
